@@ -324,3 +324,249 @@ func init() {
 		},
 	})
 }
+
+// L1: a window update that has to wait for the receiver's write queue while the Receive that triggers it is given a
+// context which is cancelled at that moment. The message is returned to the caller, the receiver keeps consuming with a
+// live context afterwards: the sender must still be admitted ("whenever the receiver keeps consuming, every blocked Send
+// is eventually admitted").
+func init() {
+	vexp.Register(&vexp.Scenario{
+		Name: "c07.L1.window-update-vs-cancelled-receive", Prop: "C07", MaxSteps: 200000,
+		Bounds: func(thorough bool) vexp.Bounds {
+			if thorough {
+				return vexp.Bounds{P: 2, F: 1, E: 0}
+			}
+			return vexp.Bounds{P: 1, F: 1, E: 0}
+		},
+		Configs: func(thorough bool) []map[string]int {
+			var out []map[string]int
+			for _, size := range []int{4096, 2048} {
+				for when := 0; when < 2; when++ {
+					out = append(out, map[string]int{"window": 4096, "writeq": 64, "rbuf": 4096, "wbuf": 4096, "size": size, "when": when})
+				}
+			}
+			return out
+		},
+		Doc: "real client and server connections, window 4096, write queues of 64 bytes. Channel A: the server handler sends three messages of `size` bytes (each needs the window the previous one used). The client reads the first one with a context that another thread cancels (every interleaving), everything else with a live context; meanwhile the client sends 2000-byte messages on channel B, so the window update for A may have to wait for space in the client's write queue just when that context is cancelled. All three messages and the end status must arrive; nobody may wait forever",
+		Body: func(x *vexp.Ctx) {
+			size := x.P("size", 4096)
+			var got [][]byte
+			var sent [][]byte
+			hDone, bDone := false, false
+			handler := HandleFunc(func(ctx Context, ch Channel) status.Status {
+				msg, st := ch.Receive(async.NoContext())
+				if !st.OK() {
+					return st
+				}
+				if string(msg) != "A" {
+					// channel B: drain
+					for {
+						if _, st := ch.Receive(async.NoContext()); !st.OK() {
+							bDone = true
+							return status.OK
+						}
+					}
+				}
+				defer func() { hDone = true }()
+				for k := 0; k < 3; k++ {
+					p := vPayload(1, 0, k, size)
+					if st := ch.Send(async.NoContext(), p); !st.OK() {
+						return st
+					}
+					sent = append(sent, p)
+				}
+				return status.OK
+			})
+			w := newWide(x, handler)
+			live := async.NoContext()
+			cctx := async.NewContext()
+			defer cctx.Free()
+			aDone, fDone, cDone := false, false, false
+			drained := false
+			firstSt := ""
+			vsched.GoNamed("client.A", func() {
+				defer func() { aDone = true }()
+				ch, st := w.cli.Channel(live)
+				if !st.OK() {
+					return
+				}
+				defer ch.Free()
+				if st := ch.Send(live, []byte("A")); !st.OK() {
+					return
+				}
+				// first message with the cancellable context
+				msg, st := ch.Receive(cctx)
+				firstSt = string(st.Code)
+				if st.OK() {
+					got = append(got, append([]byte{}, msg...))
+				}
+				for {
+					msg, st := ch.Receive(live)
+					if !st.OK() {
+						drained = st.Code == status.CodeEnd
+						return
+					}
+					got = append(got, append([]byte{}, msg...))
+				}
+			})
+			vsched.GoNamed("client.B", func() {
+				defer func() { fDone = true }()
+				ch, st := w.cli.Channel(live)
+				if !st.OK() {
+					return
+				}
+				for k := 0; k < 2; k++ {
+					ch.Send(live, vPayload(0, 1, k, 2000))
+				}
+				ch.Free()
+			})
+			vsched.GoNamed("cancel", func() {
+				if x.P("when", 0) == 1 {
+					// not before the handler has queued its first message: the cancel then races with the delivery of the
+					// message, the Receive that reads it and the window update that Receive sends
+					vsched.Join("first message sent", func() bool { return len(sent) >= 1 || hDone })
+				}
+				cctx.Cancel()
+				cDone = true
+			})
+			vsched.Join("all done", func() bool { return aDone && fDone && cDone && hDone && bDone })
+			if !drained {
+				x.Fail("receiver did not observe the end status", "first Receive: %s, got %d messages", firstSt, len(got))
+			}
+			if len(got) != len(sent) || len(sent) != 3 {
+				x.Fail("messages missing although the receiver kept consuming", "sent %d, received %d (first Receive: %s)", len(sent), len(got), firstSt)
+			}
+			for i := range got {
+				if i < len(sent) && string(got[i]) != string(sent[i]) {
+					x.Fail("message corrupted or reordered", "message %d", i)
+				}
+			}
+			for _, e := range w.log.bad() {
+				x.Fail("error logged: "+errSig(e), "%s", e)
+			}
+			x.Outcome = fmt.Sprintf("first=%s got=%d", firstSt, len(got))
+			w.shutdown()
+		},
+	})
+}
+
+// L2: the same clause with the write queue full for certain: the window update of a Receive waits for queue space (the
+// peer's socket is not being read) when the context given to that Receive is cancelled.
+func init() {
+	vexp.Register(&vexp.Scenario{
+		Name: "c07.L2.window-update-waits-for-write-queue-when-receive-context-is-cancelled", Prop: "C07", MaxSteps: 200000,
+		Bounds: func(thorough bool) vexp.Bounds {
+			if thorough {
+				return vexp.Bounds{P: 1, F: 1, E: 0}
+			}
+			return vexp.Bounds{P: 1, F: 0, E: 0}
+		},
+		Configs: func(thorough bool) []map[string]int {
+			return []map[string]int{{"window": 4096, "writeq": 64, "rbuf": 16, "wbuf": 16, "size": 4096}, {"window": 4096, "writeq": 64, "rbuf": 16, "wbuf": 16, "size": 2048}}
+		},
+		Doc: "real client and server connections, window 4096. The server handler of channel A sends one message of `size` bytes, later a second and a third one (which need the window the first ones used). The server stops reading its socket, the client's sibling channel B fills the 64-byte write queue until its Send blocks. Now the client reads A's first message with a cancellable context: the message is consumed and its window update has to wait for queue space; the context is cancelled, Receive returns the message. The server reads again and the client keeps consuming with a live context: all messages and the end status must arrive (the window the consumed message freed must reach the sender)",
+		Body: func(x *vexp.Ctx) {
+			size := x.P("size", 4096)
+			release := false
+			var sent, got [][]byte
+			hDone, bEnd := false, false
+			handler := HandleFunc(func(ctx Context, ch Channel) status.Status {
+				msg, st := ch.Receive(async.NoContext())
+				if !st.OK() {
+					return st
+				}
+				if string(msg) != "A" {
+					for {
+						if _, st := ch.Receive(async.NoContext()); !st.OK() {
+							bEnd = true
+							return status.OK
+						}
+					}
+				}
+				defer func() { hDone = true }()
+				for k := 0; k < 3; k++ {
+					if k == 1 {
+						vsched.Join("released", func() bool { return release })
+					}
+					p := vPayload(1, 0, k, size)
+					if st := ch.Send(async.NoContext(), p); !st.OK() {
+						return st
+					}
+					sent = append(sent, p)
+				}
+				return status.OK
+			})
+			w := newWide(x, handler)
+			live := async.NoContext()
+			chA, st := w.cli.Channel(live)
+			if !st.OK() {
+				x.Fail("Channel fails on a healthy connection", "%v", st)
+				return
+			}
+			chB, st := w.cli.Channel(live)
+			if !st.OK() {
+				x.Fail("Channel fails on a healthy connection", "%v", st)
+				return
+			}
+			chA.Send(live, []byte("A"))
+			chB.Send(live, []byte("b"))
+			vsched.WaitIdle("first message of A delivered")
+			w.b.StallAfterRead(0, nil)
+			w.a.SetWriteCapacity(32)
+			bDone := false
+			vsched.GoNamed("client.B", func() {
+				for k := 0; k < 3; k++ {
+					if st := chB.Send(live, vPayload(0, 1, k, 1995)); !st.OK() {
+						break
+					}
+				}
+				chB.Free()
+				bDone = true
+			})
+			vsched.WaitIdle("write queue full, B blocked")
+			cctx := async.NewContext()
+			defer cctx.Free()
+			aDone, drained := false, false
+			firstSt := ""
+			vsched.GoNamed("client.A", func() {
+				defer func() { aDone = true }()
+				defer chA.Free()
+				msg, st := chA.Receive(cctx)
+				firstSt = string(st.Code)
+				if st.OK() {
+					got = append(got, append([]byte{}, msg...))
+				}
+				for {
+					msg, st := chA.Receive(live)
+					if !st.OK() {
+						drained = st.Code == status.CodeEnd
+						return
+					}
+					got = append(got, append([]byte{}, msg...))
+				}
+			})
+			vsched.WaitIdle("A's window update waits for the write queue")
+			cctx.Cancel()
+			vsched.WaitIdle("first Receive returned")
+			release = true
+			w.b.Unstall()
+			vsched.Join("all done", func() bool { return aDone && bDone && hDone && bEnd })
+			if !drained {
+				x.Fail("receiver did not observe the end status", "first Receive: %s, got %d messages", firstSt, len(got))
+			}
+			if len(got) != 3 || len(sent) != 3 {
+				x.Fail("messages missing although the receiver kept consuming", "sent %d, received %d (first Receive: %s)", len(sent), len(got), firstSt)
+			}
+			for i := range got {
+				if i < len(sent) && string(got[i]) != string(sent[i]) {
+					x.Fail("message corrupted or reordered", "message %d", i)
+				}
+			}
+			for _, e := range w.log.bad() {
+				x.Fail("error logged: "+errSig(e), "%s", e)
+			}
+			x.Outcome = fmt.Sprintf("first=%s got=%d", firstSt, len(got))
+			w.shutdown()
+		},
+	})
+}
